@@ -56,6 +56,17 @@ cbv1 = Function("cbv1", Ref, Ref, Ref)                 # value of f(a) for value
 flt = Function("flt", Ref, RSeq, RSeq)                 # List.filter (keep f): the elements w with f None or f(w) true
 cls_has = Function("cls_has", Cls, Str, Bool)          # the class provides the attribute (method, property, class attribute)
 cls_get = Function("cls_get", Ref, Str, Ref)           # value of a class-provided attribute on an instance
+meta_of = Function("meta_of", Cls, Ref)              # the metaclass object of a class
+cls_ref = Function("cls_ref", Cls, Ref)              # a class seen as a value (dictionary key)
+cls_unref = Function("cls_unref", Ref, Cls)
+mkpair = Function("mkpair", Ref, Ref, Ref)           # a 2-tuple value (equality is componentwise)
+pfst = Function("pfst", Ref, Ref)
+psnd = Function("psnd", Ref, Ref)
+jsonk = Function("jsonk", Ref, Ref)                  # json.dumps(kwargs, sort_keys=True) (A9: injective modulo keyword order)
+hf_of = Function("hf_of", Ref, Ref)                  # the key function stored on a semi-singleton metaclass
+cbv2 = Function("cbv2", Ref, Ref, Ref, Ref)          # value of a two-argument callback
+init_raises = Function("init_raises", Cls, Ref, Ref, Bool)   # the user's __init__ raises for these arguments (A7: deterministic)
+NONECLS = Const("class:None-argument", Cls)          # `cls=None` for an optional class argument
 SSeq = SeqSort(StringSort())
 cbs1 = Function("cbs1", Ref, Ref, Str)                 # str() of the value a rendering callback returns for an object
 py_repr = Function("py_repr", Ref, Str)                # repr(obj)
@@ -415,7 +426,7 @@ class Scanner:
     """One-pass, incremental classification of the subterms of a growing set of formulas (raw C API: the Python
     wrappers of z3 are too slow for the term sizes produced by explicit heap updates)."""
 
-    CATS = ("cnt", "rem1", "without", "dedup", "setnth", "minus", "sub", "nth", "ref")
+    CATS = ("cnt", "rem1", "without", "dedup", "setnth", "minus", "sub", "nth", "ref", "mkpair", "cls_ref")
 
     def __init__(self):
         self.ctx = z3.main_ctx()
@@ -423,7 +434,8 @@ class Scanner:
         self.seen = set()
         self.keep = []                      # keep the roots alive
         self.ufid = {}
-        for name, f in (("cnt", cnt), ("rem1", rem1), ("without", without), ("dedup", dedup), ("setnth", setnth), ("minus", minus), ("sub", sub)):
+        for name, f in (("cnt", cnt), ("rem1", rem1), ("without", without), ("dedup", dedup), ("setnth", setnth), ("minus", minus), ("sub", sub),
+                        ("mkpair", mkpair), ("cls_ref", cls_ref)):
             self.ufid[_c.Z3_get_ast_id(self.cref, _c.Z3_func_decl_to_ast(self.cref, f.ast))] = name
         self.ref_sort_id = _c.Z3_get_ast_id(self.cref, _c.Z3_sort_to_ast(self.cref, Ref.ast))
 
@@ -524,6 +536,11 @@ def axioms_for(found, class_axioms, seen_cls):
         if ck not in seen_cls:
             seen_cls.add(ck)
             new.extend(class_axioms(c))
+    for t in found.get("mkpair", ()):                        # tuples are equal iff their components are
+        new.append(pfst(t) == t.arg(0))
+        new.append(psnd(t) == t.arg(1))
+    for t in found.get("cls_ref", ()):
+        new.append(cls_unref(t) == t.arg(0))
     for t in found["nth"]:
         if t.sort().eq(Ref):                                 # getElem_mem
             s, i = t.arg(0), t.arg(1)
